@@ -596,6 +596,7 @@ func main() {
 	translateTranscript(*repo, writeImp)
 	translateCRS(*repo, writeImp)
 	translateInverse(*repo, writeImp)
+	translateMulConst(*repo, writeImp)
 	fmt.Println("extract: ok")
 }
 
